@@ -10,8 +10,6 @@ for d in sorted(glob.glob(SRC + "/out-C*/m*")):
     if not os.path.isdir(d) or not os.path.exists(d + "/eval.txt") or not os.path.exists(d + "/patch.diff"):
         continue
     ev = open(d + "/eval.txt").read()
-    if "== done" not in ev:
-        continue
     pid = re.search(r"out-(C\d+)/", d).group(1)
     name = os.path.basename(d)
     confirmed = ("demo_unchanged: pass" in ev and "demo_changed: fail" in ev and re.search(r"suite_changed: passed \d+ failed 0", ev))
